@@ -1,8 +1,10 @@
 pub mod c01;
+pub mod c02;
 pub mod c04;
 pub mod c05;
 pub mod c06;
 pub mod c07;
+pub mod c16;
 
 use crate::runner::{load_replay, run_replay_tier, Ctx, Outcome};
 use serde_json::Value;
@@ -13,9 +15,11 @@ type Run = fn(&Ctx);
 fn table(id: &str) -> Option<(Run, Judge, &'static str, &'static [&'static str])> {
     match id {
         "C01" => Some((c01::run, c01::judge, c01::RULE, c01::ASSUMPTIONS)),
+        "C02" => Some((c02::run, c02::judge, c02::RULE, c02::ASSUMPTIONS)),
         "C04" => Some((c04::run, c04::judge, c04::RULE, c04::ASSUMPTIONS)),
         "C05" => Some((c05::run, c05::judge, c05::RULE, c05::ASSUMPTIONS)),
         "C07" => Some((c07::run, c07::judge, c07::RULE, c07::ASSUMPTIONS)),
+        "C16" => Some((c16::run, c16::judge, c16::RULE, c16::ASSUMPTIONS)),
         "C06" => Some((c06::run, c06::judge, c06::RULE, c06::ASSUMPTIONS)),
         _ => None,
     }
